@@ -126,6 +126,20 @@ struct Radix
   }
 };
 
+/// Second pass in a fresh process with a different call order (order-dependent hidden state such as caches in function-local
+/// statics): a check opts in by registering a warm-up function with MC_ALT_ORDER_WARMUP { ... }. In the second pass the warm-up
+/// runs first (direct library calls, e.g. single-precision functions before any double-precision one), then all sub-checks run
+/// again with the space labels suffixed "@alt-order". Replay files remember the pass.
+bool alt_order_pass();
+struct AltOrderReg
+{
+  explicit AltOrderReg(void (*warmup)());
+};
+#define MC_ALT_ORDER_WARMUP                                  \
+  static void mc_alt_order_warmup_fn();                      \
+  static ::mc::AltOrderReg mc_alt_order_reg_{&mc_alt_order_warmup_fn}; \
+  static void mc_alt_order_warmup_fn()
+
 /// crash containment: called from the eigen_assert trap
 [[noreturn]] void eigen_assert_failed(const char * expr, const char * file, int line);
 
